@@ -9,7 +9,8 @@ class Prop(PropBase):
     kernels = []
     vo_targets = ['Props/Properties_C10.vo', 'Proofs/QueueInv.vo', 'Proofs/QueueProgress.vo', 'Model/Queue.vo']
     prop_files = ['Props/Properties_C10.v']
-    harness_variants = ['asan', 'tsan']
+    harness_variants = ['asan', 'tsan', 'asan+epoll']
+    defines = {'asan+epoll': ('ENABLE_EPOLL_RECEIVE',)}
     rule = ('the real LidarDriverImpl / SyncQueue with real threads (RAW_PACKET input): 1..4 feeding threads calling decodePacket with tagged packets while the decoding thread runs, fast and slow consumers '
             '(0 / 200 us / 2 ms per packet callback), 0 / 1023 / 1024 / 1025 / 1030 packets queued before start() (the overflow boundary), bursts far above 1024 against a slow consumer, '
             'schedule perturbation (yields / short sleeps injected at the hook points outside the critical sections, seeded); every run records the linearised synchronisation events through the guarded hooks '
@@ -25,8 +26,11 @@ class Prop(PropBase):
     impl_timeout = 3000
     trusted_extra = ['OCaml trace validator ocaml/qv.ml (maps hook events to model actions; ~170 lines)']
 
+    def replay_batch(self, text):
+        return 'epoll_sockburst' if ('S c10_epburst_' in text or 'S c10_eppaced_' in text) else 'replay'
+
     def variant_for(self, bname):
-        return 'tsan' if bname.startswith('tsan') else 'asan'
+        return 'tsan' if bname.startswith('tsan') else ('asan+epoll' if 'epoll' in bname else 'asan')
 
     def generate(self, rng, tier):
         L = self.L
@@ -65,9 +69,26 @@ class Prop(PropBase):
                 dif = (j % 2 == 1) if k % 2 == 0 else (rng.random() < 0.4)
                 body = (b'\xa5\xff' if dif else b'\x55\xaa') + j.to_bytes(4, 'big') + bytes((j * 13 + q) & 0xff for q in range(rng.choice([20, 58, 300])))
                 lines.append(f'U 0 {difop if dif else msop} {body.hex()}')
+                if j % 5 == 2:
+                    lines.append(f'U 0 {msop if j % 2 else difop}')       # an empty datagram: dropped, and the buffer fetched for it carries nothing to the decoder
             lines += ['GO 0', 'E']
             sb.append('\n'.join(lines))
         out.append(('sockburst', '\n'.join(sb) + '\n'))
+        # paced: an empty datagram arrives on the other socket once the datagram before it has been decoded and its buffer is back in the
+        # free pool: the buffer fetched for the empty datagram is that one, still holding the earlier payload - nothing of it may be decoded
+        pc = []
+        for k in range(2 if tier == 'quick' else 8):
+            msop, difop = base + 60 + 2 * k, base + 61 + 2 * k
+            lines = [f'S c10_sockpaced_{k}', pktgen.Cfg(wait=0, dense=0, pktcb=1, lclock=1).line(0, L['RS16']), f'N 0 2 {msop} {difop} 0 0']
+            for j in range(rng.choice([4, 8])):
+                body = (b'\x55\xaa' if j % 3 else b'\xa5\xff') + j.to_bytes(4, 'big') + bytes((j * 11 + q) & 0xff for q in range(40))
+                port, other = (msop, difop) if j % 3 else (difop, msop)
+                lines += [f'U 0 {port} {body.hex()}', f'U 0 {other}']
+            lines += ['GO 0', 'E']
+            pc.append('\n'.join(lines))
+        out.append(('sockpaced', '\n'.join(pc) + '\n'))
+        out.append(('epoll_sockpaced', '\n'.join(pc).replace('S c10_sockpaced_', 'S c10_eppaced_') + '\n'))
+        out.append(('epoll_sockburst', '\n'.join(sb).replace('S c10_sockburst_', 'S c10_epburst_') + '\n'))       # the same bursts on the epoll receiver
         return out
 
     def judge_sockburst(self, inp, impl_path, impl_log, violations, stats):
@@ -79,7 +100,7 @@ class Prop(PropBase):
                 cur = t[1]; sent[cur] = {'text': [line.rstrip('\n')], 'm': [], 'd': []}
             elif cur:
                 sent[cur]['text'].append(line.rstrip('\n'))
-                if t and t[0] == 'U':
+                if t and t[0] == 'U' and len(t) > 3:
                     sent[cur]['d' if t[3].startswith('a5ff') else 'm'].append(t[3])
         for name, lines in CMP.split_scenarios(impl_path):
             if name is None or name not in sent:
@@ -111,7 +132,7 @@ class Prop(PropBase):
         def scn_of(name):
             i = text.find(f'S {name}\n'); j = text.find('\nE', i)
             return text[i:j + 2]
-        if bname == 'sockburst' or (bname == 'replay' and '\nN 0 4 ' in text):
+        if bname in ('sockburst', 'epoll_sockburst', 'sockpaced', 'epoll_sockpaced') or (bname == 'replay' and ('\nN 0 4 ' in text or 'paced_' in text)):
             return self.judge_sockburst(inp, impl_path, impl_log, violations, stats)
         if bname == 'trace' or (bname == 'replay' and re.search(r'^Q( \S+){6} 1$', text, re.M)):
             if not hasattr(self, 'meta'):
